@@ -114,6 +114,20 @@ Proof.
   vm_compute. repeat split.
 Qed.
 
+(* a constant bound in function scope and captured by a closure keeps being read by it whatever is later bound to the
+   same name at top level or in another function; and a new value computed from the constant itself is refused *)
+Definition n_g : name := [103]%N.                 (* "g" *)
+Definition n_x : name := [120]%N.                 (* "x" *)
+Example C19_ex_closure_computed :
+  let c := repo_ccfg true in
+  let evs := [Ev STop (AAssign n_g (EMkClo K_A arr3) false); Ev STop (AAssign K_A (ELit (xi 2)) false);
+              Ev SFn (AAssign K_A (ELit (xi 3)) false); Ev STop (AAssign n_x (ECallClo n_g) false)] in
+  let e1 := run_events c (root_env []) evs in
+  root_value e1 n_x = Some arr3 /\ root_value e1 K_A = Some (xi 2) /\
+  snd (run_event c (root_env [(K_A, arr9)]) (Ev STop (AAssign K_A (EPlus (ESlice K_A 0 8) (xi 99)) false))) = Err /\
+  snd (run_event c (root_env [(K_A, arr9)]) (Ev SLoop (AAssign K_A (EPlus (ESlice K_A 0 8) (xi 9)) true))) = Ok arr9.
+Proof. vm_compute. repeat split. Qed.
+
 Print Assumptions C19_constant_stable.
 Print Assumptions C19_lookup_stable.
 Print Assumptions C19_not_shadowed.
